@@ -100,79 +100,81 @@ func lenLowerBound(fc *FCFG, loc Loc, args types.Object, cellsFld *types.Var, le
 	lb := base
 	excluded := map[int]bool{}
 	for _, b := range fc.G.Blocks {
-		if !fc.Live(b) {
+		if !fc.Live(b) || loc.B == b {
 			continue
 		}
 		cond := fc.CondOf(b)
 		if cond == nil {
 			continue
 		}
-		be, ok := ast.Unparen(cond).(*ast.BinaryExpr)
-		if !ok {
-			continue
-		}
-		var op token.Token
-		var k int
-		if isLen(be.X) {
-			v, ok := intConst(info, be.Y)
-			if !ok {
-				continue
-			}
-			op, k = be.Op, v
-		} else if isLen(be.Y) {
-			v, ok := intConst(info, be.X)
-			if !ok {
-				continue
-			}
-			k = v
-			switch be.Op { // c OP len  ==>  len OP' c
-			case token.LSS:
-				op = token.GTR
-			case token.LEQ:
-				op = token.GEQ
-			case token.GTR:
-				op = token.LSS
-			case token.GEQ:
-				op = token.LEQ
-			default:
-				op = be.Op
-			}
-		} else {
-			continue
-		}
 		for edge := 0; edge < 2; edge++ {
-			if loc.B == b || !fc.edgeDominates(b, edge, loc.B) {
+			var facts []LitAtom
+			for _, a := range impliedAtoms(cond, edge == 0) {
+				be, ok := ast.Unparen(a.E).(*ast.BinaryExpr)
+				if ok && (isLen(be.X) || isLen(be.Y)) {
+					facts = append(facts, a)
+				}
+			}
+			if len(facts) == 0 || !fc.edgeDominates(b, edge, loc.B) {
 				continue
 			}
-			// bound implied on this edge
-			o := op
-			if edge == 1 { // negate
+			for _, a := range facts {
+				be := ast.Unparen(a.E).(*ast.BinaryExpr)
+				var op token.Token
+				var k int
+				if isLen(be.X) {
+					v, ok := intConst(info, be.Y)
+					if !ok {
+						continue
+					}
+					op, k = be.Op, v
+				} else {
+					v, ok := intConst(info, be.X)
+					if !ok {
+						continue
+					}
+					k = v
+					switch be.Op { // c OP len  ==>  len OP' c
+					case token.LSS:
+						op = token.GTR
+					case token.LEQ:
+						op = token.GEQ
+					case token.GTR:
+						op = token.LSS
+					case token.GEQ:
+						op = token.LEQ
+					default:
+						op = be.Op
+					}
+				}
+				if !a.Positive {
+					switch op {
+					case token.LSS:
+						op = token.GEQ
+					case token.LEQ:
+						op = token.GTR
+					case token.GTR:
+						op = token.LEQ
+					case token.GEQ:
+						op = token.LSS
+					case token.EQL:
+						op = token.NEQ
+					case token.NEQ:
+						op = token.EQL
+					}
+				}
 				switch op {
-				case token.LSS:
-					o = token.GEQ
-				case token.LEQ:
-					o = token.GTR
 				case token.GTR:
-					o = token.LEQ
-				case token.GEQ:
-					o = token.LSS
-				case token.EQL:
-					o = token.NEQ
+					if k+1 > lb {
+						lb = k + 1
+					}
+				case token.GEQ, token.EQL:
+					if k > lb {
+						lb = k
+					}
 				case token.NEQ:
-					o = token.EQL
+					excluded[k] = true
 				}
-			}
-			switch o {
-			case token.GTR:
-				if k+1 > lb {
-					lb = k + 1
-				}
-			case token.GEQ, token.EQL:
-				if k > lb {
-					lb = k
-				}
-			case token.NEQ:
-				excluded[k] = true
 			}
 		}
 	}
